@@ -81,6 +81,10 @@ T = {
     text="Generated histories of solver-API calls (add_assertion with symbols first used at different levels, push(n), legal pop(n), solve, get_value, get_model, reset_assertions, is_sat/is_valid/is_unsat, factory shortcuts) drive SmtLibSolver attached to a strict reference SMT-LIB solver process that rejects illegal command streams and logs every command, reply and model. The process must never answer (error ...); every verdict must equal the brute-force truth of the harness' own model of the live assertions; after sat, get_model must contain every symbol of the live assertions with the logged value and satisfy them, get_value must return the logged value; no legal call may raise or block.",
     note="Trusted: vf/refsolver.py + vf/smtref.py (strict reading of the stream, cvc5-style value syntax, reset-assertions removes declarations), vf/refsem.py. One reference process per history; a call exceeding its budget is reported as blocked (reply stream out of sync).",
     technique="stateful property testing against a strict reference solver process (protocol conformance + differential verdicts/models)"),
+ "C19": dict(level="exploration", design="4/C19",
+    text="Portfolios of 2-4 members, each a reference solver process with a harness-chosen delay (equal delays give near-ties) and failure mode (ok, unknown, crash, exit, garbage reply, fail-on-assert, die-at-start), run the cycle solve / get_model / get_value / push-assert-solve / pop-solve on generated finite-domain formulas (incl. scenarios where all members tie and the verdict flips at the second query), with exit_on_exception on and off. If a member answers, every verdict must be the brute-force truth and the model / value must satisfy the assertion; if every member fails the call must raise. Blocking forever is decided by a deadlock predicate (no member process alive and the call not returned after a grace period), never by a timeout.",
+    note="The harness owns delays and failure modes, not the OS scheduler: completion orders and near-ties are sampled and reported in the evidence (finish-order / near-tie classes); microsecond races are not enumerated. Budget overruns with live members are inconclusive.",
+    technique="schedule-perturbed property testing with fault-injected member processes and a deadlock predicate"),
 }
 
 checks, na = [], []
